@@ -13,6 +13,7 @@ int selftest_dump(uint64_t seed, int per_form) {
   auto refs = form_refs([](const Form &f) { std::string p = f.pat; return p != "REL" && p != "FARM"; });
   for (auto &r : refs) {
     if (r.mn.size() > 3 && r.mn.compare(0, 3, "nop") == 0) continue; // nopN is AssemblyLine syntax
+    if (r.mn == "movd" && (std::string(r.f->pat) == "X,R64" || std::string(r.f->pat) == "R64,X")) continue; // this nasm wants movq for a 64-bit register; the bytes are the same instruction
     for (int rep = 0; rep < per_form; rep++) {
       Intent it = base_intent(r); bool bad = false;
       for (auto &s : r.slots) {
